@@ -881,3 +881,20 @@ Definition vice_symbols (c : ctx) : list (ipath * Z) :=
                                     | _, _ => []
                                     end
                      end) (all (symbols c)).
+
+(* symbols of the table that the current pass did not write (pass stamp older than the pass index); symbols without a
+   span are the predefined constants and segments.* *)
+Definition stale_symbols (c : ctx) : list (ipath * nat * symbol) :=
+  filter (fun e => match e with (_, _, s) => Nat.ltb (s_pass s) (pass_idx c) && match s_span s with Some _ => true | None => false end end)
+         (all (symbols c)).
+Definition Known_stale_symbol_survives (c : ctx) : bool := match stale_symbols c with [] => false | _ => true end.
+
+(* a failed build whose diagnostics are all "unknown identifier" for names that the table does define *)
+Definition defined_somewhere (c : ctx) (id : ipath) : bool :=
+  existsb (fun e => match e with (p, _, _) => ipath_eqb (skipn (List.length p - List.length id) p) id end) (all (symbols c)).
+Definition Known_changed_reported_unknown (r : result) : bool :=
+  match r with
+  | Failed (d :: ds) c =>
+      forallb (fun x => dkind_eqb (d_kind x) DUnknownIdentifier && defined_somewhere c (d_path x)) (d :: ds)
+  | _ => false
+  end.
